@@ -316,7 +316,7 @@ def inject(rng, rows, spec, terms, hist):
             hist.add("special-row")
 
 
-def gen_conv(rng, search, spec=None, shape=None, history=False):
+def gen_conv(rng, search, spec=None, shape=None, history=False, variant=None):
     spec = spec or gen_spec(rng, shape=shape)
     terms = terms_of(rng, spec)
     L = lambda v: L_of_vector(spec, terms, v)
@@ -406,11 +406,12 @@ def gen_conv(rng, search, spec=None, shape=None, history=False):
                 m = max(lls)
                 lls[rng.randrange(len(lls))] = m
                 st["ll"] = hexvec(lls)
-        r = rng.random()
+        r = rng.random() if variant is None or variant >= 10 else 0.0
         if st["ll"] and r < 0.45:
             # unusual but legal values: a maximum that is exactly 0.0 / -0.0 (falsy), whole numbers, zero weights
             lls = [unhex(x) for x in st["ll"]]
-            mode = rng.choice(["zero-max", "negzero-max", "both-zeros", "whole", "all-equal"])
+            modes = ["zero-max", "negzero-max", "both-zeros", "whole", "all-equal"]
+            mode = rng.choice(modes) if variant is None or variant >= 10 else modes[variant % 5]
             if mode == "whole":
                 lls = [x if math.isnan(x) or math.isinf(x) else float(math.floor(x)) for x in lls]
                 lls[rng.randrange(len(lls))] = 0.0
@@ -428,7 +429,7 @@ def gen_conv(rng, search, spec=None, shape=None, history=False):
                 ws[rng.randrange(len(ws))] = 0.0
                 st["w"] = hexvec(ws)
             special.add("ll:" + mode)
-        st["scalar"] = rng.choice(["float", "float", "np", "int"])
+        st["scalar"] = rng.choice(["float", "float", "np", "int"]) if variant is None else ["float", "np", "int"][variant % 3]
         if rows and rng.random() < 0.5:
             inject(rng, rows, spec, terms, special)
             st["rows"] = [hexvec(v) for v in rows]
@@ -695,7 +696,7 @@ def oracle(c, r):
             add("routes", "Samples.%s is not the list of the samples' own values: %r" % (
                 {"ll_list": "log_likelihood_list", "lp_list": "log_prior_list", "w_list": "weight_list",
                  "post_list": "log_posterior_list"}[name], str(routes[name])[:200]))
-    for name in ("total", "len"):
+    for name in ("len",):        # (total_samples is the number of likelihood calls for nested samplers: not a route)
         if name in routes and routes[name] != len(samples):
             add("routes", "Samples.%s is %r, there are %d samples" % ({"total": "total_samples", "len": "__len__"}[name], routes[name], len(samples)))
     if c.get("history") and (r.get("notes") or {}).get("again_equal") is False:
@@ -777,7 +778,10 @@ def oracle(c, r):
                         for path, v in d["instance"]:
                             k_, x_ = kind[path]
                             if unhex(v) != (dvals[x_] if k_ == "p" else x_):
-                                add("history", "derived Samples (%s): instance attribute %s = %r is not its best sample's value" % (name, path, unhex(v)))
+                                # copy-built objects (copy, minimise: with tied maxima the kept sample can be another one)
+                                # inherit the parent's cached instance: the known finding's clause
+                                add("derived-instance" if name in ("minimised", "copied") else "history",
+                                    "derived Samples (%s): instance attribute %s = %r is not its own best sample's value" % (name, path, unhex(v)))
                                 break
                 if isinstance(hist.get("with_paths_fresh"), list) and hist.get("with_paths_used") != hist["with_paths_fresh"]:
                     add("derived-instance", "samples.with_paths([first component]).instance has components %r when asked of a fresh Samples "
@@ -922,7 +926,8 @@ def classes_of(c, aspect):
     # the zeus label applies only while the source has the pinned (unaligned) log-prob call
     if s == "zeus" and aspect == "ll" and VARIANTS.get("Zeus") == "unaligned":
         out.append("zeus-logprob-unthinned")
-    if aspect == "derived-instance" and len({p.split(".")[0] for p in c.get("spec_paths", [])}) >= 2:
+    if aspect == "derived-instance":
+        # only the clause "a copy-built derived Samples object hands out the parent's cached instance"
         out.append("samples-copy-keeps-instance")
     return out
 
@@ -1036,7 +1041,7 @@ def gen_cases(ctx):
         for j in range(per + (6 if s in ("emcee", "from_lists") else 0)):
             # by construction, every search and every seed: each model shape at least twice, every second case a
             # use - use again history of one search object and one model object
-            cases.append(gen_conv(rng, s, shape=SHAPES[j % len(SHAPES)] if j < 2 * len(SHAPES) else None, history=(j % 2 == 1)))
+            cases.append(gen_conv(rng, s, shape=SHAPES[j % len(SHAPES)] if j < 2 * len(SHAPES) else None, history=(j % 2 == 1), variant=j))
     for j in range(24 if not thorough else 160):
         cases.append(gen_init(rng, history=(j % 2 == 0), falsy=(j % 3 == 0), shape=SHAPES[j % len(SHAPES)] if j % 4 == 1 else None))
     e2e = []
